@@ -258,6 +258,7 @@ class Run:
                 "msg": v["msg"],
                 "cases_in_class": len(vs),
                 "how_to_run": f"cd /verif && ./check {self.prop} --replay {path}",
+                "as_unit_test": UNIT_TEST_TEMPLATE.format(prop=self.prop, mod=self.modname, path=str(path), kind=v["kind"]),
             }
             path.write_text(json.dumps(rec, indent=1, sort_keys=True, default=_json_default))
             ok, why = confirm_replay(self.prop, path, v["kind"])
@@ -326,6 +327,24 @@ class Run:
             f"known={len(listed)} wall={ev['wall_s']}s exit={status}"
         )
         return status
+
+
+UNIT_TEST_TEMPLATE = """# plain unit test that replays this case without the explorer:
+#   cd /verif && OMP_NUM_THREADS=1 PYTHONPATH=/repo:/verif /venv/bin/python -m unittest <this snippet saved as a file>
+import importlib, json, unittest
+
+class Replay_{prop}(unittest.TestCase):
+    def test_case_satisfies_property(self):
+        rec = json.load(open("{path}"))
+        mod = importlib.import_module("{mod}")
+        if hasattr(mod, "init_worker"):
+            mod.init_worker(*getattr(mod, "REPLAY_INIT_ARGS", ()))
+        res = mod.run_case(rec["case"])
+        self.assertEqual([], [v["kind"] + ": " + v["msg"] for v in res["violations"]], "expected no violation (recorded class: {kind})")
+
+if __name__ == "__main__":
+    unittest.main()
+"""
 
 
 def write_evidence(prop, ev):
